@@ -23,6 +23,8 @@ func init() {
 		checkTreeHandedOver(r, prog, a, "c03")
 		r.importing = "C18"
 		checkOptionConstructors(r, prog, "c18") // no state is carried from one operand's evaluation to the next through the options
+		r.importing = "C14"
+		checkUnorderedSources(r, prog, a, "c14") // an operand means one thing: a quantified operand over a map does not answer by Go's iteration order
 		r.importing = "C04"
 		checkRegexpSource(r, prog, a, "c04") // an operand means the same on either side of a connective: its pattern is prepared the same way wherever it stands
 		r.importing = "C06"
